@@ -300,18 +300,22 @@ def pairs_for(tier):
             ispec('update', "update a1 = 'U' + a2 where a1 != 'b'", n), ispec('like', "select a1 where like(a3, '%y') or like(a1, '_')", n),
             ispec('runtime-error', 'select a1, 1 / (2 - NR)', n), ispec('parse-error', 'select a1 where a1 = 1', n), ispec('distinct', 'select distinct a1 where a2 != "9"', n),
             ispec('top', 'select top 1 a1, NR', n), ispec('header', 'select a.k, NR as r order by a.k', n, a_names=NAMES),
+            ispec('join-2-keys', 'select a1, b2 join b on a1 == b1 and a2 == b2', n, B=[['a', '1'], ['b', '9']][:nb]), ispec('join-nr', 'select a1, b2 left join b on NR == bNR', n, B=T2[:nb]),
             ispec('dict-key', 'select a["tags"], a["k"]', n, a_names=NAMES), ispec('missing-dict-key', 'select a1, a["tags"]', n, a_names=['k', 'n', 'other']),
         ]}
     out = []
     small = mk(2, 1)
     sel = [('unnest', 'distinct'), ('sorted', 'aggregate'), ('join', 'update'), ('like', 'runtime-error'), ('distinct-count', 'parse-error'), ('select', 'top'), ('header', 'sorted'), ('runtime-error', 'sorted'),
-           ('dict-key', 'missing-dict-key')]
+           ('dict-key', 'missing-dict-key'), ('join', 'join-2-keys')]
     for a, b in sel:
         out.append((small[a], small[b], 2))
     if tier == 'thorough':
         small2 = mk(2, 2)
         out.append((small2['join'], small2['update'], 2))
         out.append((small2['join'], small2['join'], 2))
+        out.append((small2['join'], small2['join-2-keys'], 2))
+        out.append((small['join-nr'], small['join-2-keys'], 2))
+        out.append((small['join-nr'], small['join'], 2))
         out.append((small['aggregate'], small['aggregate'], 2))
         out.append((small['like'], small['like'], 2))
         out.append((small['unnest'], small['sorted'], 2))
